@@ -41,6 +41,27 @@
 (*                                   second pass's priors reach the table  *)
 (*                                   only if the first pass (or set_prior) *)
 (*                                   left something in it                  *)
+(* ModeStore     "canonical"         the code: set_mode accepts the two    *)
+(*                                   modes in any spelling of upper/lower  *)
+(*                                   case and stores the lower-case mode   *)
+(*               "raw"               expected-counterexample variant: the  *)
+(*                                   spelling is validated without regard  *)
+(*                                   to case but stored as spelled, and    *)
+(*                                   compile_params reads anything that is *)
+(*                                   not exactly "log" as linear           *)
+(* UpdateGuard   "before"            the code: update_model compares the   *)
+(*                                   length of the vector with the fitted  *)
+(*                                   set before it writes anything         *)
+(*               "while_writing"     expected-counterexample variant: the  *)
+(*                                   mismatch is noticed when the shorter  *)
+(*                                   of the two runs out, after the        *)
+(*                                   leading setters have been called      *)
+(* A mode argument is a pair (m, cs): the mode m in lower case and the set *)
+(* cs of letter positions the caller writes in upper case ("log", {1,2,3}  *)
+(* is "LOG"); the harness applies the mask at the boundary.                *)
+(* Rejected calls (an unknown name, a mode that is neither linear nor log, *)
+(* a vector whose length is not the number of fitted parameters) raise and *)
+(* change nothing (ErrorsChangeNothing); the history goes on after them.   *)
 (* Preset(S) is a macro step: enable_fit / disable_fit called for every    *)
 (* parameter so that exactly S is fitted (any subset: only observation     *)
 (* parameters, none at all, ...); used by the export / simulation specs.   *)
@@ -49,7 +70,7 @@ EXTENDS Integers, Sequences, FiniteSets, TLC, Json
 
 CONSTANTS Params,        \* sequence of fitting-parameter names, declaration order (model, then observation)
           Derived,       \* sequence of derived-parameter names, declaration order
-          InitSetting,   \* [p -> [fit, mode, lo, hi]]
+          InitSetting,   \* [p -> [fit, mode, lo, hi, raw]]  (raw: the stored spelling is not the lower-case one)
           InitDerived,   \* [d -> BOOLEAN]
           InitValue,     \* [p -> exponent]
           CallParams,    \* the fitting parameters that the generated calls name (subset of Params)
@@ -60,7 +81,9 @@ CONSTANTS Params,        \* sequence of fitting-parameter names, declaration ord
           UserPriors,    \* set of prior records [kind, a, b]
           K,             \* exponents written by UpdateModel
           ObsParams,     \* the fitting parameters that belong to the observation (declared after the model's)
-          PriorTable, ViewSpace, DerivedLookup, ObsMerge,
+          ModeCalls,     \* set of <<m, cs>>: mode m written with the letters at positions cs in upper case
+          InvalidModes,  \* strings that are neither mode in any spelling (set_mode must refuse them)
+          PriorTable, ViewSpace, DerivedLookup, ObsMerge, ModeStore, UpdateGuard,
           Record         \* keep the history variable (binding C) or not (exhaustive runs)
 
 VARIABLES setting, derivedOn, userPrior, priorTab, compiled, compiledDer, value, err, hist
@@ -89,8 +112,12 @@ CompiledFrom(tab, s) == LET f == FittedSeq(s) IN
                           prior |-> tab[f[i]]]]
 DerivedFrom(don) == SelectSeq(Derived, LAMBDA d : don[d])
 
-\* what the current settings alone imply
+\* what the current settings alone imply (the mode is the mode the caller named, however it was spelled)
 ViewCompiled(s, up) == CompiledFrom(TableFrom(up, s), s)
+\* the settings as compile_params reads them: a spelling stored raw is not "log", hence linear
+AsStored(s) == [p \in PSet |-> [s[p] EXCEPT !.mode = IF s[p].raw THEN "linear" ELSE s[p].mode]]
+WordLen(m) == IF m = "log" THEN 3 ELSE 6
+LowerCase(m, cs) == cs \cap (1..WordLen(m)) = {}
 
 \* ------------------------------------------------------------- projection
 \* space in which fit_values / fit_boundaries report entry c of the snapshot
@@ -121,7 +148,8 @@ SetSetting(p, f, ev) ==
 
 EnableFit(p)  == SetSetting(p, [setting[p] EXCEPT !.fit = TRUE],  [op |-> "enable_fit", p |-> p])
 DisableFit(p) == SetSetting(p, [setting[p] EXCEPT !.fit = FALSE], [op |-> "disable_fit", p |-> p])
-SetMode(p, m) == SetSetting(p, [setting[p] EXCEPT !.mode = m],    [op |-> "set_mode", p |-> p, m |-> m])
+SetMode(p, m, cs) == SetSetting(p, [setting[p] EXCEPT !.mode = m, !.raw = (ModeStore = "raw" /\ ~LowerCase(m, cs))],
+                                [op |-> "set_mode", p |-> p, m |-> m, cs |-> cs])
 SetBoundary(p, b) == SetSetting(p, [setting[p] EXCEPT !.lo = b[1], !.hi = b[2]],
                                 [op |-> "set_boundary", p |-> p, x |-> b])
 \* bounds = (factor0 * value, factor1 * value) with the value read now
@@ -161,12 +189,13 @@ Compile ==
         /\ err' = FALSE
         /\ UNCHANGED <<setting, derivedOn, userPrior, value>>
         /\ LET base == IF PriorTable = "persist_all" THEN priorTab ELSE userPrior
-               tab  == TableFrom(base, setting)
+               st   == AsStored(setting)
+               tab  == TableFrom(base, st)
                \* two passes (model, then observation); tabM is the table after the first pass
                tabM == [p \in PSet |-> IF p \in ObsParams THEN base[p] ELSE tab[p]]
                lost == ObsMerge = "if_table_nonempty" /\ \A p \in PSet : tabM[p] = None
            IN  /\ priorTab' = IF lost THEN tabM ELSE tab
-               /\ compiled' = CompiledFrom(tab, setting)
+               /\ compiled' = CompiledFrom(tab, st)
         /\ compiledDer' = DerivedFrom(derivedOn)
         /\ Log([op |-> "compile_params"])
 
@@ -178,6 +207,18 @@ UpdateModel(vec) ==
         /\ Len(vec) = Len(compiled)
         /\ value' = [p \in PSet |-> IF \E i \in 1..Len(compiled) : compiled[i].name = p
                                     THEN vec[CHOOSE i \in 1..Len(compiled) : compiled[i].name = p]
+                                    ELSE value[p]]
+        /\ UNCHANGED <<setting, derivedOn, userPrior, priorTab, compiled, compiledDer>>
+        /\ Log([op |-> "update_model", x |-> vec])
+
+\* update_model(vec) with a vector whose length is not the number of fitted parameters (shorter or
+\* longer, not empty): refused, nothing is written
+UpdateWrong(vec) ==
+        /\ err' = TRUE
+        /\ Len(vec) # Len(compiled)
+        /\ LET n == IF UpdateGuard = "while_writing" THEN IMin(Len(vec), Len(compiled)) ELSE 0 IN
+           value' = [p \in PSet |-> IF \E i \in 1..n : compiled[i].name = p
+                                    THEN vec[CHOOSE i \in 1..n : compiled[i].name = p]
                                     ELSE value[p]]
         /\ UNCHANGED <<setting, derivedOn, userPrior, priorTab, compiled, compiledDer>>
         /\ Log([op |-> "update_model", x |-> vec])
@@ -199,15 +240,23 @@ Unknown(op, u) ==
         /\ UNCHANGED <<setting, derivedOn, userPrior, priorTab, compiled, compiledDer, value>>
         /\ Log([op |-> op, p |-> u])
 
+\* set_mode with a string that is neither mode: an error, nothing changes
+BadMode(p, w) ==
+        /\ err' = TRUE
+        /\ UNCHANGED <<setting, derivedOn, userPrior, priorTab, compiled, compiledDer, value>>
+        /\ Log([op |-> "set_mode", p |-> p, m |-> w, cs |-> {}])
+
 FitOps == {"enable_fit", "disable_fit", "set_mode", "set_boundary", "set_factor_boundary", "set_prior"}
 DerOps == {"enable_derived", "disable_derived"}
 UnknownFitCall == \E op \in FitOps, u \in UnknownFit : Unknown(op, u)
 UnknownDerCall == \E op \in DerOps, u \in UnknownDer : Unknown(op, u)
 
 Vecs == [1..Len(compiled) -> K]
+WrongLens == (1..(Len(compiled) + 1)) \ {Len(compiled)}
+WrongVecs == UNION {[1..n -> K] : n \in WrongLens}
 SettingCall == \E p \in CallParams :
                   \/ EnableFit(p) \/ DisableFit(p)
-                  \/ \E m \in {"linear", "log"} : SetMode(p, m)
+                  \/ \E mc \in ModeCalls : SetMode(p, mc[1], mc[2])
                   \/ \E b \in BoundPairs : SetBoundary(p, b)
                   \/ \E f \in Factors : SetFactorBoundary(p, f)
 PriorCall   == \E p \in CallParams, pr \in UserPriors : SetPrior(p, pr)
@@ -215,12 +264,15 @@ DerivedCall == \E d \in DSet : EnableDerived(d) \/ DisableDerived(d)
 UpdateCall  == \E vec \in Vecs : UpdateModel(vec)
 KnownCall   == SettingCall \/ PriorCall \/ DerivedCall \/ Compile \/ UpdateCall \/ WriteBack
 UnknownCall == UnknownFitCall \/ UnknownDerCall
+UpdateWrongCall == \E vec \in WrongVecs : UpdateWrong(vec)
+BadModeCall == \E p \in CallParams, w \in InvalidModes : BadMode(p, w)
+RejectedCall == UnknownCall \/ UpdateWrongCall \/ BadModeCall
 
-Next == KnownCall \/ UnknownCall
+Next == KnownCall \/ RejectedCall
 Spec == Init /\ [][Next]_vars
 
 \* --------------------------------------------------------------- properties
-TypeOK == /\ \A p \in PSet : setting[p].fit \in BOOLEAN /\ setting[p].mode \in {"linear", "log"}
+TypeOK == /\ \A p \in PSet : setting[p].fit \in BOOLEAN /\ setting[p].mode \in {"linear", "log"} /\ ~setting[p].raw
           /\ \A d \in DSet : derivedOn[d] \in BOOLEAN
           /\ err \in BOOLEAN
 
@@ -254,6 +306,8 @@ FittedAreSet == [][(value' # value /\ UpdateCall) => \A i \in 1..Len(compiled) :
 SettersKeepValues == [][value' # value => (UpdateCall \/ WriteBack)]_vars
 \* unknown names are errors and leave everything as it was; known names never are
 UnknownIsError == [][UnknownCall => err']_vars
+\* so are a vector of the wrong length and a mode that is neither linear nor log
+RejectedIsError == [][RejectedCall => err']_vars
 ErrorsChangeNothing == [][err' => UNCHANGED <<setting, derivedOn, userPrior, priorTab,
                                               compiled, compiledDer, value>>]_vars
 KnownIsAccepted == [][err' => ~KnownCall]_vars
